@@ -12,8 +12,8 @@ var _hclstrtok_actions []byte = []byte{
 var _hclstrtok_key_offsets []byte = []byte{
 	0, 0, 2, 4, 6, 10, 14, 18,
 	22, 27, 31, 36, 41, 46, 51, 57,
-	62, 74, 85, 96, 107, 118, 129, 140,
-	151,
+	62, 76, 87, 98, 109, 120, 131, 142,
+	153,
 }
 
 var _hclstrtok_trans_keys []byte = []byte{
@@ -24,7 +24,8 @@ var _hclstrtok_trans_keys []byte = []byte{
 	13, 36, 37, 92, 10, 13, 36, 37,
 	92, 10, 13, 36, 37, 92, 10, 13,
 	36, 37, 92, 10, 13, 36, 37, 92,
-	123, 10, 13, 36, 37, 92, 88, 0x78,
+	123, 10, 13, 36, 37, 92, 85, 88,
+	117, 0x78,
 	128, 191, 192, 223, 224, 239, 240, 247,
 	248, 255, 10, 13, 36, 37, 92, 48,
 	57, 65, 70, 97, 102, 10, 13, 36,
@@ -43,7 +44,7 @@ var _hclstrtok_trans_keys []byte = []byte{
 var _hclstrtok_single_lengths []byte = []byte{
 	0, 0, 0, 0, 4, 4, 4, 4,
 	5, 4, 5, 5, 5, 5, 6, 5,
-	2, 5, 5, 5, 5, 5, 5, 5,
+	4, 5, 5, 5, 5, 5, 5, 5,
 	5,
 }
 
@@ -57,8 +58,8 @@ var _hclstrtok_range_lengths []byte = []byte{
 var _hclstrtok_index_offsets []byte = []byte{
 	0, 0, 2, 4, 6, 11, 16, 21,
 	26, 32, 37, 43, 49, 55, 61, 68,
-	74, 82, 91, 100, 109, 118, 127, 136,
-	145,
+	74, 84, 93, 102, 111, 120, 129, 138,
+	147,
 }
 
 var _hclstrtok_indicies []byte = []byte{
@@ -71,7 +72,8 @@ var _hclstrtok_indicies []byte = []byte{
 	22, 0, 24, 25, 26, 27, 22, 23,
 	24, 28, 26, 27, 22, 23, 24, 25,
 	26, 27, 0, 22, 23, 24, 25, 28,
-	27, 22, 29, 30, 22, 2, 3, 31,
+	27, 22, 29, 29, 30, 30, 22, 2,
+	3, 31,
 	22, 0, 23, 24, 25, 26, 27, 32,
 	32, 32, 22, 23, 24, 25, 26, 27,
 	33, 33, 33, 22, 23, 24, 25, 26,
